@@ -294,6 +294,8 @@ def run(chk, ctx):
     r3(chk, ctx, p, se)
     r4(chk, ctx, p, se)
     r5(chk, ctx, p, se)
+    from . import round3
+    round3.tidy_up_callers(chk, ctx)            # a retry inside a branch leaves its siblings alone
     from . import c06
     c06.r2(chk, ctx)                                         # a late sibling failure after the state was caught is Task.Terminated, so the catcher runs once
     chk.assume("one retry counter per state (the engine does not count per retrier; the property's wording does not pin this down)")
